@@ -471,6 +471,19 @@ def check_loaded_data_and_options(rep, prog, runs):
                 n += 1
                 rep.fail(rule, e.func, e.node, "an element of data loaded from a file and kept for all decodes (%s) is overwritten in place: "
                          "the next decode that uses this entry sees the values of this log" % (repr(e.data[0])[:100],), node=e.node)
+            # ... or an element looked up in a container that outlives the decode (an index built once, a table of a
+            # module-level object) gets a value of this log written into it
+            if e.kind == "ext_setitem":
+                held = [x for x in walk(e.data[0]) if isinstance(x, Ref) and getattr(I.heap.get(x.oid), "shared", None)]
+                looked_up = isinstance(e.data[0], Op) and e.data[0].op in ("dictget", "getitem", "elem", "m:get", "m:setdefault")
+                if held and looked_up and (log_derived(I, e.data[2]) or log_derived(I, e.data[1])):
+                    k = (e.func, getattr(e.node, "lineno", 0))
+                    if k not in seen:
+                        seen.add(k)
+                        n += 1
+                        rep.fail(rule, e.func, e.node, "an entry looked up in %s, which is shared by all decodes, is overwritten in place with a value "
+                                 "derived from the log being decoded: the next decode that finds this entry sees the values of this log" % (
+                                     I.heap[held[0].oid].shared,), node=e.node)
     # (b) drivers of a whole decode, with the section decoders opaque
     for fn, extra in (("parsePEL", [Const(False)]), ("parsePELSummary", [])):
         I = Interpreter(prog, hooks={"opaque": {"pel.peltool.peltool.sectionFun", "pel.peltool.peltool.considerPEL", "pel.peltool.peltool.prettyPrint",
